@@ -312,6 +312,11 @@ func (fr *frame) postScope(fn *ssa.Function, con *Contract, results []*Val, mem,
 			sc.vars[p.Name()] = &sv{v: &a}
 		}
 	}
+	for i, fv := range fn.FreeVars {
+		if i < len(fr.free) && fr.free[i] != nil && fr.fn == fn {
+			sc.vars[fv.Name()] = &sv{v: fr.free[i]}
+		}
+	}
 	rs := fn.Signature.Results()
 	for i := 0; i < rs.Len() && i < len(results); i++ {
 		r := *results[i]
